@@ -185,6 +185,41 @@ def axis_slices(ds, axis):
     if axis == "leadtimeday":
         days = sorted(set(math.floor(l / 24.0) for l in ds.leads))
         return [float(d) for d in days], [m(l=[i for i, l in enumerate(ds.leads) if math.floor(l / 24.0) == d]) for d in days]
+    if axis in TIME_BUCKETS:
+        keys = [time_bucket(axis, t) for t in ds.times]
+        us = sorted(set(keys))
+        xs = [u / 86400.0 for u in us] if axis in ("year", "month", "week", "day") else [float(u) for u in us]
+        return xs, [m(t=[i for i, k in enumerate(keys) if k == u]) for u in us]
+    raise ValueError(axis)
+
+
+TIME_BUCKETS = ("year", "month", "week", "day", "timeofday", "dayofyear", "dayofmonth", "monthofyear")
+
+
+def time_bucket(axis, t):
+    """the calendar bucket of an initialisation time (UTC), written from the axis descriptions: year / month / week
+    (Monday) / day = unixtime of the beginning of the period; timeofday in hours; dayofyear 1..366 counted in a leap
+    year; dayofmonth; monthofyear"""
+    import datetime
+    utc = datetime.timezone.utc
+    d = datetime.datetime.fromtimestamp(int(t), tz=utc)
+    day0 = datetime.datetime(d.year, d.month, d.day, tzinfo=utc)
+    if axis == "year":
+        return datetime.datetime(d.year, 1, 1, tzinfo=utc).timestamp()
+    if axis == "month":
+        return datetime.datetime(d.year, d.month, 1, tzinfo=utc).timestamp()
+    if axis == "week":
+        return (day0 - datetime.timedelta(days=day0.weekday())).timestamp()
+    if axis == "day":
+        return day0.timestamp()
+    if axis == "timeofday":
+        return (int(t) % 86400) / 3600.0
+    if axis == "dayofyear":
+        return (datetime.datetime(2000, d.month, d.day) - datetime.datetime(2000, 1, 1)).days + 1
+    if axis == "dayofmonth":
+        return d.day
+    if axis == "monthofyear":
+        return d.month
     raise ValueError(axis)
 
 
@@ -230,6 +265,198 @@ def metric_value(m, o, f):
     raise ValueError(m)
 
 
+def aggregate(agg, v):
+    """the aggregators of -agg on a non-empty list of finite numbers, from their names / docstrings (exact rational
+    arithmetic up to the final sqrt); an empty list: count 0, everything else undefined"""
+    from fractions import Fraction as Q
+    v = [Q(x) for x in v]
+    n = len(v)
+    if n == 0:
+        return 0.0 if agg == "count" else NAN
+    s = sorted(v)
+    mu = sum(v) / n
+
+    def pct(p):          # linear interpolation between order statistics (NumPy's default, Hyndman & Fan 7)
+        pos = (n - 1) * Q(p)
+        lo = int(pos)
+        hi = min(lo + 1, n - 1)
+        return s[lo] + (s[hi] - s[lo]) * (pos - lo)
+    if agg == "mean":
+        r = mu
+    elif agg == "median":
+        r = pct(Q(1, 2))
+    elif agg == "min":
+        r = s[0]
+    elif agg == "max":
+        r = s[-1]
+    elif agg == "variance":
+        r = sum((x - mu) ** 2 for x in v) / n
+    elif agg == "std":
+        return math.sqrt(sum((x - mu) ** 2 for x in v) / n)
+    elif agg == "iqr":
+        r = pct(Q(3, 4)) - pct(Q(1, 4))
+    elif agg == "range":
+        r = s[-1] - s[0]
+    elif agg == "count":
+        r = Q(n)
+    elif agg == "sum":
+        r = sum(v)
+    elif agg == "meanabs":
+        r = sum(abs(x) for x in v) / n
+    elif agg == "absmean":
+        r = abs(mu)
+    elif agg == "change":
+        r = v[-1] - v[0]
+    elif agg == "abschange":
+        r = abs(v[-1] - v[0])
+    else:
+        r = pct(Q(agg))          # a number: that quantile
+    return float(r)
+
+
+def cont_value(m, a, b, c, d):
+    """2x2 verification measures (Wilks ch. 8; Jolliffe & Stephenson); undefined (zero denominator) = NaN"""
+    from fractions import Fraction as Q
+    a, b, c, d = Q(a), Q(b), Q(c), Q(d)
+    n = a + b + c + d
+    if n == 0:
+        return NAN
+
+    def div(x, y):
+        return float(x / y) if y != 0 else NAN
+    if m in ("a", "b", "c", "d"):
+        return float({"a": a, "b": b, "c": c, "d": d}[m] / n)
+    if m == "n":
+        return float(n)
+    if m == "ets":
+        ar = (a + b) * (a + c) / n
+        return div(a - ar, a + b + c - ar)
+    return {"hit": lambda: div(a, a + c), "miss": lambda: div(c, a + c), "fa": lambda: div(b, b + d),
+            "far": lambda: div(b, a + b), "threat": lambda: div(a, a + b + c), "pc": lambda: div(a + d, n),
+            "kss": lambda: div(a * d - b * c, (a + c) * (b + d)),
+            "hss": lambda: div(2 * (a * d - b * c), (a + c) * (c + d) + (a + b) * (b + d)),
+            "biasfreq": lambda: div(a + b, a + c), "baserate": lambda: div(a + c, n), "fcstrate": lambda: div(a + b, n),
+            "yulesq": lambda: div(a * d - b * c, a * d + b * c), "or": lambda: div(a * d, b * c)}[m]()
+
+
+CONT_METRICS = ("a", "b", "c", "d", "n", "ets", "hit", "miss", "fa", "far", "threat", "pc", "kss", "hss", "biasfreq",
+                "baserate", "fcstrate", "yulesq", "or")
+PROB_METRICS = ("bs", "bss", "bsunc", "bsrel", "bsres", "bssrel", "bssres", "marginalratio")
+
+
+def prob_value(m, oe, p):
+    """Brier score and its parts for events oe (0/1) and probabilities p (Murphy 1973, ten probability bins
+    [k/10, (k+1)/10), p = 1 in the last one), skill scores relative to the uncertainty, marginal ratio"""
+    from fractions import Fraction as Q
+    oe, p = [Q(x) for x in oe], [Q(x) for x in p]
+    n = len(oe)
+    if n == 0:
+        return NAN
+    ob = sum(oe) / n
+    bs = sum((q - x) ** 2 for x, q in zip(oe, p)) / n
+    unc = ob * (1 - ob)
+    bins = [[] for _ in range(10)]
+    for x, q in zip(oe, p):
+        k = min(9, int(q * 10)) if 0 <= q <= 1 else None
+        if k is not None:
+            bins[k].append((x, q))
+    nb = sum(len(bn) for bn in bins)
+    rel = sum(sum((q - sum(x for x, _ in bn) / len(bn)) ** 2 for _, q in bn) for bn in bins if bn) / nb if nb else None
+    res = sum(len(bn) * (sum(x for x, _ in bn) / len(bn) - ob) ** 2 for bn in bins if bn) / nb if nb else None
+    f = lambda r: NAN if r is None else float(r)
+    if m == "bs":
+        return float(bs)
+    if m == "bsunc":
+        return float(unc)
+    if m == "bss":
+        return float((unc - bs) / unc) if unc != 0 else NAN
+    if m == "bsrel":
+        return f(rel)
+    if m == "bsres":
+        return f(res)
+    if m == "bssrel":
+        return f(rel / unc) if unc != 0 and rel is not None else NAN
+    if m == "bssres":
+        return f(res / unc) if unc != 0 and res is not None else NAN
+    if m == "marginalratio":
+        mp = sum(p) / n
+        return float(ob / mp) if mp != 0 else NAN
+    raise ValueError(m)
+
+
+def running(v):
+    """-acc: running sums along the axis, a missing value counting as 0"""
+    out, s = [], 0.0
+    for x in v:
+        s += 0.0 if x != x else x
+        out.append(s)
+    return out
+
+
+def expected_standard(o, ds):
+    """-m <metric> as a line plot / bar graph: for input f the value at x-entry k is the metric of the common valid
+    cases of slice k (data axis; with several thresholds the mean over the thresholds of the per-threshold scores) or of
+    all cases for threshold k (-x threshold); -acc: the running sum; -x no: one bar per input"""
+    F = len(ds.inputs)
+    nm = names(ds)
+    m = o["m"]
+    fam = "cont" if m in CONT_METRICS else ("prob" if m in PROB_METRICS else "det")
+    b = o.get("b") or "above"
+    ts = o.get("r")
+    ivs = intervals(b, ts) if ts is not None else [None]
+    ax = o.get("x") or ("leadtime" if fam == "det" else "threshold")
+    if ax == "threshold":
+        xs, ms = [center(b, iv) for iv in ivs], None
+    else:
+        xs, ms = axis_slices(ds, ax)
+    agg = o.get("agg", "mean")
+
+    def cell(f, iv, mask):
+        if fam == "prob":
+            keys = ["obs", fkey("p", iv[0])] + ([fkey("p", iv[1])] if "within" in b else [])
+            V = valid(ds, keys) & mask
+            ob = take(ds, f, "obs", V)
+            if not ob:
+                return NAN
+            oe = [1.0 if in_iv(b, iv, x) else 0.0 for x in ob]
+            if "within" in b:
+                p = [u - l for l, u in zip(take(ds, f, keys[1], V), take(ds, f, keys[2], V))]
+            elif b.startswith("above"):
+                p = [1.0 - c for c in take(ds, f, keys[1], V)]
+            else:
+                p = take(ds, f, keys[1], V)
+            return prob_value(m, oe, p)
+        V = valid(ds, ["obs", "fcst"]) & mask
+        ob, fc = take(ds, f, "obs", V), take(ds, f, "fcst", V)
+        if not ob:
+            return NAN
+        if fam == "cont":
+            a, bb, c, d = (sum(1 for x, y in zip(ob, fc) if in_iv(b, iv, y) == ey and in_iv(b, iv, x) == ex)
+                           for ey, ex in ((True, True), (True, False), (False, True), (False, False)))
+            return cont_value(m, a, bb, c, d)
+        if m == "corr":
+            return metric_value("corr", ob, fc)
+        if m == "mae":
+            return aggregate(agg, [abs(x - y) for x, y in zip(ob, fc)])
+        if m == "bias":
+            return aggregate(agg, [y - x for x, y in zip(ob, fc)])
+        if m == "rmse":
+            return sqrt(aggregate(agg, [(x - y) ** 2 for x, y in zip(ob, fc)]))
+        raise ValueError(m)
+
+    allc = np.ones(ds.shape, bool)
+    cols = []
+    for f in range(F):
+        if ax == "threshold":
+            y = [cell(f, iv, allc) for iv in ivs]
+        else:
+            y = [mean([cell(f, iv, mk) for iv in ivs]) for mk in ms]
+        cols.append(running(y) if o.get("acc") else y)
+    if ax in ("no", "none"):
+        return [(0, "bar", "_", [0.2 + k for k in range(F)], [c[0] for c in cols], [0.8] * F)]
+    return [(0, "line", nm[f], xs, cols[f]) for f in range(F)]
+
+
 def expected(name, o, ds):
     F = len(ds.inputs)
     nm = names(ds)
@@ -238,14 +465,27 @@ def expected(name, o, ds):
     if name == "obsfcst":
         xs, ms = axis_slices(ds, o.get("x", "leadtime"))
         V = valid(ds, ["obs", "fcst"])
-        out.append((0, "line", "Observed", xs, [mean(take(ds, 0, "obs", V & m)) for m in ms]))
+        agg = o.get("agg", "mean")
+        acc = running if o.get("acc") else (lambda v: v)
+        obsl = acc([aggregate(agg, take(ds, 0, "obs", V & m)) for m in ms])
+        fl, qls = [], []
         for f in range(F):
-            out.append((0, "line", nm[f], xs, [mean(take(ds, f, "fcst", V & m)) for m in ms]))
+            fl.append(acc([aggregate(agg, take(ds, f, "fcst", V & m)) for m in ms]))
             ql = []
             for q in o.get("q", []):
                 Vq = valid(ds, [fkey("q", q), "obs"])
-                ql.append([mean(take(ds, f, fkey("q", q), Vq & m)) for m in ms])
-                out.append((0, "line", "%s %g%%" % (nm[f], q * 100), xs, ql[-1]))
+                ql.append(acc([aggregate(agg, take(ds, f, fkey("q", q), Vq & m)) for m in ms]))
+            qls.append(ql)
+        if o.get("x") in ("no", "none"):
+            # the bar graph: observation, forecasts in input order, then the quantile lines level by level
+            h = [obsl[0]] + [v[0] for v in fl] + [qls[f][j][0] for j in range(len(o.get("q", []))) for f in range(F)]
+            return [(0, "bar", "_", [0.2 + k for k in range(len(h))], h, [0.8] * len(h))]
+        out.append((0, "line", "Observed", xs, obsl))
+        for f in range(F):
+            out.append((0, "line", nm[f], xs, fl[f]))
+            ql = qls[f]
+            for j, q in enumerate(o.get("q", [])):
+                out.append((0, "line", "%s %g%%" % (nm[f], q * 100), xs, ql[j]))
             for i in range(len(ql) // 2):          # the band between the i-th and the i-th last quantile line
                 out += band_series(xs, ql[i], ql[len(ql) - 1 - i])
     elif name in ("qq", "scatter"):
@@ -257,7 +497,8 @@ def expected(name, o, ds):
                 cols = [take(ds, f, k, V) for k in ["obs", "fcst"] + [fkey("q", q) for q in qs]]
             else:
                 _, ms = axis_slices(ds, ax)
-                cols = [[mean(take(ds, f, k, V & m)) for m in ms] for k in ["obs", "fcst"] + [fkey("q", q) for q in qs]]
+                cols = [[aggregate(o.get("agg", "mean"), take(ds, f, k, V & m)) for m in ms]
+                        for k in ["obs", "fcst"] + [fkey("q", q) for q in qs]]
             if name == "qq":
                 srt = lambda v: sorted([x for x in v if x == x]) + [x for x in v if x != x]
                 out.append((0, "line", nm[f] + (" (deterministic)" if qs else ""), srt(cols[0]), srt(cols[1])))
@@ -428,8 +669,10 @@ def expected(name, o, ds):
                         bins[i].append((1.0 if x <= v else 0.0, v))
                 out.append((0, "line", nm[f] if t == 0 else "", [mean(v for _, v in bn) if bn else 0.0 for bn in bins],
                             [mean(x for x, _ in bn) if len(bn) >= 2 else NAN for bn in bins]))
-    elif name in ("performance", "taylor", "error", "bsdecomp", "standard"):
-        ax = o.get("x", "leadtime" if name == "standard" else "none")
+    elif name == "standard":
+        return expected_standard(o, ds)
+    elif name in ("performance", "taylor", "error", "bsdecomp"):
+        ax = o.get("x", "none")
         xs, ms = axis_slices(ds, ax)
         t = o["r"][0] if "r" in o else None
         keys = ["obs", fkey("p", t)] if name == "bsdecomp" else ["obs", "fcst"]
